@@ -322,7 +322,7 @@ def r08_5(ctx, counts) -> RuleResult:
                                      f'earlier item decides, so /r/x[count(y)] filters every x '
                                      f'with the count of the first one'))
     counts['predicate_yields'] = n
-    if n < 2:
+    if n < 1:
         raise AnalysisError(f'only {n} yields located in the predicate loop')
     return res
 
